@@ -216,7 +216,7 @@ def taint_sinks(prog, f, h, res, rule='R1'):
 def rule_r1(prog, res, tier):
     res.rule('R1', 'non-Fault exceptions reach only loggers and the literal '
              'fault string')
-    mods = ['spyne.application', 'spyne.server._base', 'spyne.server.wsgi',
+    mods = ['spyne.service', 'spyne.application', 'spyne.server._base', 'spyne.server.wsgi',
             'spyne.server.http', 'spyne.auxproc._base']
     if tier == 'thorough':
         mods = [m for m in prog.modules if m.startswith('spyne.server') or
